@@ -51,6 +51,18 @@ CHECKS = {
             'Trusts TLC, the fault wrappers (installed on the names vermouth.file_writer uses), and log lines on stderr as the '
             'record of emitted warnings. A crash inside one primitive is below the model step. w+a on one path not generated.',
             'DESIGN.md section 5 / C07'),
+    'C13': ('model_checking',
+            'Five TLA+ models (SectionStack: header rule, operational = declarative over the real METH_DICT; FFFile: top-level '
+            'section machine with ExactlyOnceInOrder / ErrorIffMalformed; Tokens; AtomPrefix; ItpPragma) checked exhaustively by '
+            'TLC; every model state rendered to concrete text and replayed into the real readers; shipped .ff files and '
+            'per-object #meta/per-line metadata judged by TLC (Trace_FF)',
+            'Every sequence of top-level sections up to the bound (blocks, links, modifications, macros, variables, citations, in '
+            'any order, with every listed fault injected at every position) is loaded by the real read_ff and compared with the '
+            'model library and with the description each object was rendered from; tokeniser, prefix/order normalisation, ITP '
+            'pragma state and the section-header rule are bound row by row.',
+            'Trusts TLC, the chunk renderer, and the independent line classifier for shipped files. .map/.mapping content is bound '
+            'only through the shared header rule. Lines like "} {" (negative brace depth) are outside the grammar.',
+            'DESIGN.md section 5 / C13'),
 }
 
 PENDING = {}
